@@ -160,6 +160,26 @@ def run(ctx):
     if vt_fail:
         if vt_tie: vt_fail["theorems_no_longer_tied"] = [t["name"] for t in ths]
         violation(ctx, "vtcache_%d.json" % ctx.seed, vt_fail, no_failing_input=vt_tie)
+    # "any block alignment": every power of two a uint16_t can hold, through start/end_buffer and create_buffer (NDEBUG build, ASan): either a
+    # buffer the verifier accepts whose size and alignment respect the block, or a clean refusal — never a read behind the block of padding zeroes
+    ba_rt = build_runtime_objs(ctx, flags=SAN + ["-DNDEBUG"], tag="rt_ndebug")
+    ba_exe = build_harness(ctx, "blockalign", [os.path.join(VERIF, "harness/blockalign.c")], ba_rt, flags=SAN + ["-DNDEBUG"])
+    ba_n = 0
+    for k in range(0, 16):
+        ba = 1 << k
+        rc_b, out_b, err_b = sh([ba_exe, str(ba)], timeout=60, env=ASAN_ENV)
+        ba_n += 1
+        why = None
+        if rc_b != 0: why = "the builder crashes for block alignment %d: %s" % (ba, err_b[-700:])
+        for l in out_b.split("\n"):
+            t = l.split(" ")
+            if len(t) >= 6 and t[2] == "ok":
+                kv = dict(x.split("=") for x in t[3:])
+                if kv["verify"] != "0": why = "block alignment %d (%s): the finished buffer is rejected by the verifier (%s)" % (ba, t[1], kv["verify"])
+                elif int(kv["align"]) < ba: why = "block alignment %d (%s): the builder reports buffer alignment %s" % (ba, t[1], kv["align"])
+        if why:
+            violation(ctx, "blockalign_%d.json" % ba, {"kind": "property-fails-on-implementation", "why": why, "output": out_b[:400], "how_to_replay": "harness/blockalign.c %d (ASan, -DNDEBUG)" % ba})
+            break
     for ci, c in enumerate(cases):
         for st, o in sorted(c_out[ci].items()):
             if o != m_out[ci]:
